@@ -41,6 +41,8 @@ struct Stats {
     /// maximum, over all states observed so far (the trees are read after every operation, and an operation
     /// either only adds or only removes checkpoints), of the id of the pool's 100th-highest checkpoint
     pruned_floor: [u32; 3],
+    /// per pool: the checkpoint ids seen at the previous observation
+    prev_cps: [BTreeSet<u32>; 3],
 }
 
 type TreeErr = ShardTreeError<zcash_client_sqlite::wallet::commitment_tree::Error>;
@@ -238,6 +240,21 @@ fn check_trees(ctx: &Ctx, h: &mut Hist, st: &mut Stats, step: &str, full: bool) 
             let hundredth = *set.iter().rev().nth(99).unwrap();
             st.pruned_floor[p] = st.pruned_floor[p].max(hundredth);
         }
+        // Low checkpoints that disappeared since the previous observation (pruning, or a truncation that reset this
+        // pool's tree to its subtree roots because it had no checkpoint at or below the truncation height — the
+        // documented per-pool outcome of `plan_tree_truncation`): whatever lies below the pool's new lowest
+        // checkpoint may be absent from this pool from now on, even if a later historic scan re-inserts some of it.
+        if let Some(prev_min) = st.prev_cps[p].iter().next().copied() {
+            match set.iter().next().copied() {
+                None => {
+                    let prev_max = *st.prev_cps[p].iter().next_back().unwrap();
+                    st.pruned_floor[p] = st.pruned_floor[p].max(prev_max + 1);
+                }
+                Some(cur_min) if cur_min > prev_min => st.pruned_floor[p] = st.pruned_floor[p].max(cur_min),
+                _ => {}
+            }
+        }
+        st.prev_cps[p] = (*set).clone();
     }
     let lowest_common = [&a, &b, &c].iter().filter_map(|s| s.iter().copied().find(|id| !on_grid(*id))).max().unwrap_or(0);
     let horizon = lowest_common.max(*st.pruned_floor.iter().max().unwrap());
